@@ -147,8 +147,13 @@ async fn build_engine(cfg: &Cfg, toml: &str) -> Engine {
     b.build().await.expect("build engine").start()
 }
 
-fn attach(chan: &Arc<Channel>, id: &str, log: &Log) {
+fn attach(chan: &Arc<Channel>, id: &str, log: &Log, only: &Option<Vec<String>>) {
     for ev in ["message", "start", "complete", "error"] {
+        if let Some(list) = only {
+            if !list.iter().any(|x| x == ev) {
+                continue;
+            }
+        }
         let log = log.clone();
         let id = id.to_string();
         let f = move |e: &Event<Message>| {
@@ -186,7 +191,9 @@ fn open_chan(st: &mut St, opts: &Value) {
         uses: g("uses", "*"),
     };
     let chan = st.engine.channel_with_options(&o);
-    attach(&chan, &id, &st.log);
+    // "handlers": which of the four handler kinds the client registers (all of them when absent)
+    let only = opts.get("handlers").and_then(|x| x.as_array()).map(|a| a.iter().filter_map(|x| x.as_str().map(|y| y.to_string())).collect::<Vec<_>>());
+    attach(&chan, &id, &st.log, &only);
     st.chans.insert(id, chan);
 }
 
